@@ -67,8 +67,15 @@ def main():
             na.append({'property_id': pid, 'reason': 'check not built yet in this session (runtime monitoring applies; see DESIGN.md section ' + ref + ')'})
     hooks = {'guard': 'SOFTHSMV2_VERIF', 'enable': 'tools/build.py passes -DSOFTHSMV2_VERIF in CMAKE_CXX_FLAGS for every config it builds (asan, tsan, botan, plain) from a content mirror of /repo',
              'baseline_off_cmd': 'python3 /verif/tools/baseline.py', 'source_commits': [], 'add_only': True}
-    engines = [{'name': 'walker', 'path': 'vlib/walker.py', 'serves_properties': ['C01', 'C03', 'C04', 'C05', 'C06', 'C11', 'C14', 'C19'], 'kind_free_text': 'model-guided history runner with lock-step monitors'},
-               {'name': 'p11x', 'path': 'exec/p11x.cpp', 'serves_properties': sorted(T), 'kind_free_text': 'host executor with canary buffers, FS/exit/abort/mutex interposers, threads mode'}]
+    engines = [
+        {'name': 'p11x', 'path': 'exec/p11x.cpp', 'serves_properties': sorted(T), 'kind_free_text': 'host executor (co-process + threads mode) with exact-size canary output buffers, FS / record-lock / RNG / exit / abort / assert interposers (exec/interpose.cpp), logical and monotonic clocks'},
+        {'name': 'walker', 'path': 'vlib/walker.py', 'serves_properties': ['C01', 'C03', 'C04', 'C11', 'C14', 'C19'], 'kind_free_text': 'sequential reference model (vlib/model.py) stepped in lock-step with the library; monitors after every call; vlib/walkcheck.py runs histories in parallel'},
+        {'name': 'tables', 'path': 'checks/c07.py', 'serves_properties': ['C01', 'C02', 'C07', 'C08'], 'kind_free_text': 'exhaustive cell enumerators with positive controls (vlib/mechtable.py, vlib/keys_fixed2.py, vlib/keymat.py)'},
+        {'name': 'cryptodiff', 'path': 'vlib/refcrypt.py', 'serves_properties': ['C10', 'C12', 'C13'], 'kind_free_text': 'independent crypto implementation (nettle block primitives + standards in Python) compared with the token; chunking, tamper and size-protocol monitors'},
+        {'name': 'faults', 'path': 'checks/c16.py', 'serves_properties': ['C05', 'C06', 'C09', 'C16'], 'kind_free_text': 'FS fault and crash-point enumeration by interposition + recovery probe in a fresh process; independent decoders vlib/objfile.py, dbfile.py, tokenkey.py; golden fixtures'},
+        {'name': 'fuzz', 'path': 'checks/c17.py', 'serves_properties': ['C17'], 'kind_free_text': 'hostile API sequences and structure-aware file mutation under ASan/UBSan with termination interposers'},
+        {'name': 'conc', 'path': 'checks/c18.py', 'serves_properties': ['C15', 'C18'], 'kind_free_text': 'threads mode with yielding mutex callbacks (uniform and rare-long stalls), TSan race keys vs baseline, Wing-Gong linearizability search with culprit localisation; multi-process orchestrator with history checker'},
+        {'name': 'diff4', 'path': 'checks/c20.py', 'serves_properties': ['C20'], 'kind_free_text': 'the same seeded program on {file,db} x {OpenSSL,Botan}'}]
     m = {'version': 1, 'setup_cmd': './setup.sh', 'hooks': hooks, 'engines': engines, 'checks': checks, 'not_applicable': na,
          'notes': 'All checks rebuild what they need from /repo\'s working tree into $VERIF_CACHE (default /var/tmp/softhsmv2-verif) via tools/build.py. exit 0 held / 1 violation / 2 inconclusive.'}
     json.dump(m, open(f'{V}/MANIFEST.json', 'w'), indent=1)
